@@ -948,6 +948,7 @@ class SearchHook:
         self.findings = []      # (step index, kind, detail)
         self.txn = {}           # id(mol) -> deep() at __enter__
         self.txn_comp = {}      # id(mol) -> comp_snapshot() at __enter__
+        self.stack = {}         # id(mol) -> deep() snapshots of the blocks opened and not yet closed (nesting)
         self.origin = {}        # id(mol) -> how the object was made
         self.tainted = set()    # molecules whose coherence is the caller's duty (setter outside a transaction, made inside one)
 
@@ -967,6 +968,8 @@ class SearchHook:
             self.rollback_to = self.txn.get(id(world.cur))
         else:
             self.rollback_to = None
+        # a block closed although an inner block of the same molecule already dropped the backup
+        self.nested_close = op[0] in ('exit_exn', 'exit_ok') and not in_transaction(world.cur) and bool(self.stack.get(id(world.cur)))
 
     def after(self, world, i, op, e):
         m = self.cur
@@ -992,9 +995,15 @@ class SearchHook:
             if (op[0] in ('sub', 'copy') or (op[0] == 'union' and op[2])) and len(world.others) == self.n_others + 1:
                 for det in stereo_locality(self.pre_comp, comp_snapshot(world.others[0])):
                     self.findings.append((i, 'stereo-locality', f'{op} (the new molecule): {det}'))
+        if op[0] in ('exit_exn', 'exit_ok') and self.stack.get(id(m)):
+            outer = self.stack[id(m)].pop()
+            if self.nested_close and (e is not None or (op[0] == 'exit_exn' and deep(m) != outer)):
+                self.findings.append((i, 'nested-transaction', f'{op} closing an outer block after an inner block of the same molecule was closed: '
+                                                               f'raised {e}, molecule restored: {deep(m) == outer}'))
         if op[0] == 'enter' and e is None:
             self.txn[id(m)] = deep(m)
             self.txn_comp[id(m)] = self.pre_comp
+            self.stack.setdefault(id(m), []).append(self.txn[id(m)])
         if self.rollback_to is not None and e is None:
             if deep(m) != self.rollback_to:
                 self.findings.append((i, 'rollback', 'a transaction that raised did not restore the molecule exactly'))
@@ -1066,6 +1075,8 @@ def classify(cur, other, ops, hook_findings, final):
     clean = lambda r: not r[0] and not r[1]
     if hook_findings:
         kinds = {f[1] for f in hook_findings}
+        if kinds == {'nested-transaction'}:
+            return 'nested-transaction-no-rollback'
         if kinds != {'raises'}:
             return None
         det = hook_findings[0][2]
@@ -1092,6 +1103,10 @@ def classify(cur, other, ops, hook_findings, final):
         if clean(attempt(cur, other, ops, pre=_flush)):
             return 'exit-ok-no-flush'
         if clean(attempt(cur, other, ops, pre=_flush_reset)):
+            last_enter = max([j for j, o in enumerate(ops) if o[0] == 'enter'], default=0)
+            block = ops[last_enter:]
+            if any(o[0] in ('set_charge', 'set_radical') for o in block) and any(o[0] == 'remap' or (o[0] == 'union' and not o[2]) for o in block):
+                return 'txn-setter-renumbered-untracked'      # known: __exit__ looks setter edits up by atom number in the backup
             return 'txn-setter-untracked'
         return None
     if k == 'add_bond' and op[3] == 8 and kinds <= {'bond-labels'}:
@@ -1230,6 +1245,26 @@ def search_stereo_and_reactions(ck):
                     report(ck, cur, other, list(ops[:i + 1]), [f for f in hook.findings if f[0] == i], [] if hook.findings else ff, 'transaction seeds')
                 else:
                     ck.count('search:txn:clean-sequences')
+    # three operations in the block: a setter, a renumbering / in-place union, a structural edit (known finding
+    # txn-setter-renumbered-untracked lives here), and nested blocks of one molecule (known finding nested-transaction-no-rollback)
+    body3 = [('set_charge', 3, -1), ('set_radical', 2, True), ('set_charge', 12, 1), ('remap', ((3, 9),)), ('remap', ((1, 2), (2, 1))),
+             ('add_atom', 7, 0, False, None), ('delete_bond', 1, 2), ('union', False, False)]
+    blocks = [(('enter',),) + mid + (end,) for mid in itertools.product(body3, repeat=3) for end in (('exit_ok',), ('exit_exn',))]
+    blocks += [(('enter',), ('enter',), ('add_atom', 9, 0, False, None), ('exit_ok',), ('exit_exn',)),
+               (('enter',), ('enter',), ('add_atom', 9, 0, False, None), ('exit_exn',), ('add_atom', 7, 0, False, None), ('exit_exn',)),
+               (('enter',), ('enter',), ('exit_ok',), ('exit_ok',)), (('enter',), ('add_atom', 9, 0, False, None), ('enter',), ('exit_exn',))]
+    for ops in blocks:
+        cur, other = 'CCO', 'CN@10'
+        w = fresh_world(cur, other)
+        hook = SearchHook()
+        run_ops(w, ops, hook)
+        ff = final_findings(w, hook)
+        ck.case(('txn3', ops), nontrivial=True)
+        if hook.findings or ff:
+            i = hook.findings[0][0] if hook.findings else len(ops) - 1
+            report(ck, cur, other, list(ops[:i + 1]), [f for f in hook.findings if f[0] == i], [] if hook.findings else ff, 'transaction seeds (3 operations, nesting)')
+        else:
+            ck.count('search:txn3:clean-sequences')
     # reactions
     for rs in ('CC(=O)O.OCC>>CC(=O)OCC.O', 'C=C>[Pt]>CC'):
         r = smiles(rs)
